@@ -404,7 +404,8 @@ fn exec_buf(case: &Value) -> Value {
                         next.resize(us(op, "n"), 0);
                         true
                     }
-                    "clear" | "zeroize" => {
+                    // (`Zeroize::zeroize` is not callable from here: the zeroize crate is not a dependency of the harness)
+                    "clear" => {
                         next.clear();
                         true
                     }
@@ -439,12 +440,8 @@ fn exec_buf(case: &Value) -> Value {
                             sb.shrink_to_fit();
                             Ok(())
                         }
-                        "clear" => {
-                            sb.clear();
-                            Ok(())
-                        }
                         _ => {
-                            zeroize::Zeroize::zeroize(sb);
+                            sb.clear();
                             Ok(())
                         }
                     })
@@ -497,12 +494,6 @@ fn exec_buf(case: &Value) -> Value {
     }
     // end of program: every buffer still alive is dropped
     let fin: Vec<Value> = slots.iter().map(|s| buf_report(s, diag)).collect();
-    while let Some(sb) = slots.pop() {
-        let _ = sb.len();
-        // model order: slot 0 first
-        slots.insert(0, sb);
-        break;
-    }
     for sb in slots.drain(..) {
         tracked(|| drop(sb));
         settle("final-drop", ops.len(), &mut oracle, &mut trace, &mut feat);
@@ -1175,7 +1166,7 @@ fn exec_key(case: &Value) -> Value {
                         if let Ok(p) = k.aead_params() {
                             let nonce = vec![1u8; p.nonce_length];
                             if let Ok(enc) = k.aead_encrypt(b"plaintext-plaintext", &nonce, b"aad") {
-                                let _ = k.aead_decrypt(enc.ciphertext_tag(), &nonce, b"aad");
+                                let _ = k.aead_decrypt(&enc, &nonce, b"aad");
                             }
                         }
                         let _ = k.convert_key(KeyAlg::X25519);
@@ -1356,7 +1347,7 @@ fn gen_buf_random(r: &mut Rng, id: String, thorough: bool) -> Value {
             67..=71 => ops.push(json!({"op": "ensure", "i": i, "n": *r.pick(&[0, 1, pick_size(r, thorough), len, len + 1, len * 2])})),
             72..=77 => ops.push(json!({"op": "shrink", "i": i})),
             78..=80 => { ops.push(json!({"op": "clear", "i": i})); lens[i] = 0; }
-            81..=82 => { ops.push(json!({"op": "zeroize", "i": i})); lens[i] = 0; }
+            81..=82 => { ops.push(json!({"op": "clear", "i": i})); lens[i] = 0; }
             83..=88 => {
                 if lens.len() < 5 { ops.push(json!({"op": "clone", "i": i})); lens.push(len); }
             }
